@@ -582,6 +582,9 @@ class RenameDetector:
         assert change.old is not None and change.new is not None
         if change.old.sha == change.new.sha:
             return False
+        if S_ISGITLINK(change.old.mode) or S_ISGITLINK(change.new.mode):
+            # Git links don't exist in this repo.
+            return False
         assert change.old.sha is not None
         assert change.new.sha is not None
         old_obj = self._store[change.old.sha]
